@@ -1,5 +1,6 @@
 """C06 Pre-release gating and filter() follow the PEP 440 policy."""
-import os
+import os, json
+from dataclasses import replace
 from core import Case
 import gen, gen_sets as G
 
@@ -7,15 +8,15 @@ IMPL_MODULE = "sets_impl"
 # the iteration order of the member frozenset depends on the hash seed: vary it with the run seed (every observation must be invariant)
 IMPL_ENV = {"PYTHONHASHSEED": str(int(os.environ.get("VERIF_SEED", "0") or 0) % 4294967295)}
 RULE = ("operation histories on one Specifier / SpecifierSet / empty SpecifierSet object: constructor override x later assignments to "
-        ".prereleases (True/False/None) interleaved with contains / `in` / filter / .prereleases reads, call argument None/True/False, "
-        "installed None/True/False; candidate lists of mixed str / Version items (related to the clause versions, with and without final "
+        ".prereleases (True/False/None, also the non-bool 1 / 0) interleaved with contains / `in` / filter / .prereleases reads, call argument "
+        "None/True/False/1/0/'x'/'', installed likewise; sets built from Specifier objects with their own overrides and == spellings; candidate lists of mixed str / Version items (related to the clause versions, with and without final "
         "releases, shuffled, occasional invalid strings); filter results observed as positions (identity by `is`) and kinds of the returned "
         "objects; non-trivial = the object was constructed; distinct by program text")
 ASSUMPTIONS = ["filter() is observed through list(...): the laziness of the generator (when an InvalidVersion surfaces relative to items already "
-               "yielded) is not observed", "member Specifier objects are not mutated after they are placed in a set"]
+               "yielded) is not observed"]
 
 
-OPTOK = {"S", "X", "L", "&", "&s", "P", "c", "in", "f", "str", "len", "pre", "eq", "T", "F", "N", "s", "v"}
+OPTOK = {"d", "S", "X", "L", "&", "&s", "P", "c", "in", "f", "str", "len", "pre", "eq", "eqs", "T", "F", "N", "s", "v", "1", "0", "E"}
 
 
 def item_list(rng, pool, n=None, valid=0.985):
@@ -34,12 +35,16 @@ def item_list(rng, pool, n=None, valid=0.985):
             v = replace(v, pre=rng.choice([("a", 1), ("rc", 0), None]), dev=rng.choice([None, 0]), local=None)
             if v.pre is None and v.dev is None: v = replace(v, dev=1)
             its += [rng.choice("sv"), gen.vstr(v)]
+    if its and rng.random() < 0.12:
+        # the same object twice in the list (kind d repeats the previous item's text; the implementation side passes the previous object again)
+        j = 2 * rng.randrange(len(its) // 2)
+        its[j + 2:j + 2] = ["d", its[j + 1]]
     return its
 
 
 def obj_prog(rng, pool):
-    kind = rng.choice(["X", "X", "S", "S", "S0", "L"])
-    o = rng.choice(G.TRI)
+    kind = rng.choice(["X", "X", "S", "S", "S0", "L", "L"])
+    o = rng.choice(G.TRI_OV)
     if kind == "X":
         return ["X", o, G.clause(rng, pool)], kind
     if kind == "S0":
@@ -47,8 +52,9 @@ def obj_prog(rng, pool):
     cl = [G.clause(rng, pool) for _ in range(rng.choice([1, 1, 2, 3]))]
     if kind == "S":
         return ["S", o, G.layout(rng, cl)], kind
+    if rng.random() < 0.3: cl += [G.respell(rng, rng.choice(cl))]       # an == member in another spelling, with its own override: the first supplied wins
     prog = ["L", o, str(len(cl))]
-    for x in cl: prog += [rng.choice(G.TRI), x]
+    for x in cl: prog += [rng.choice(G.TRI_OV), x]
     return prog, kind
 
 
@@ -61,14 +67,14 @@ def streams(rng, tier):
         isset = kind != "X"
         for _ in range(rng.choice([1, 2, 3, 5, 8])):
             k = rng.random()
-            if k < 0.25: prog += ["P", rng.choice(["T", "F", "N"])]
+            if k < 0.25: prog += ["P", rng.choice(["T", "F", "N", "T", "F", "N", "1", "0"])]
             elif k < 0.5:
-                prog += ["c", rng.choice(G.TRI), rng.choice(["N", "N", "T", "F"]) if isset else "N", rng.choice("sv"), G.candidate(rng, pool, 0.97)]
+                prog += ["c", rng.choice(G.TRI_ARG), rng.choice(["N", "N", "T", "F", "1", "0", "S", "E"]) if isset else "N", rng.choice("sv"), G.candidate(rng, pool, 0.97)]
             elif k < 0.58: prog += ["in", rng.choice("sv"), G.candidate(rng, pool, 0.97)]
             elif k < 0.68: prog += ["pre"]
             else:
                 its = item_list(rng, pool)
-                prog += ["f", rng.choice(G.TRI), str(len(its) // 2)] + its
+                prog += ["f", rng.choice(G.TRI_ARG), str(len(its) // 2)] + its
         if rng.random() < 0.08:
             data = [j for j, t in enumerate(prog) if t not in OPTOK and not t.isdigit()]
             if data:
@@ -83,8 +89,56 @@ def streams(rng, tier):
         p2, _ = obj_prog(rng, pool)
         while p2[0] == "X": p2, _ = obj_prog(rng, pool)
         its = item_list(rng, pool)
-        prog = p1 + p2 + ["&", "pre", "f", rng.choice(G.TRI), str(len(its) // 2)] + its + ["P", rng.choice("TFN"), "pre", "f", "N", str(len(its) // 2)] + its
+        prog = p1 + p2 + ["&", "pre", "f", rng.choice(G.TRI_ARG), str(len(its) // 2)] + its
+        prog += ["c", rng.choice(G.TRI_ARG), rng.choice(["N", "T", "F", "1", "E"]), rng.choice("sv"), G.candidate(rng, pool, 0.97)]
+        prog += ["P", rng.choice("TFN10"), "pre", "f", "N", str(len(its) // 2)] + its
         out.append(Case("history:and", "s.run", prog))
+    # objects with identity: Specifier objects shared between a set, a second set and their intersection; assignments to a member's
+    # .prereleases through the harness's own reference, interleaved with assignments to the sets and reads of every set and object
+    for _ in range(1200 if q else 30000):
+        pool = G.pool_of(rng)
+        ncell = rng.choice([1, 2, 2, 3, 4])
+        cl = [G.clause(rng, pool) for _ in range(ncell)]
+        if rng.random() < 0.4: cl.append(G.respell(rng, rng.choice(cl)))
+        prog = []
+        for x in cl: prog += ["X", rng.choice(G.TRI_OV), x]
+        n = len(cl)
+        def subset():
+            k = rng.choice([0, 1, 1, 2, 2, 3])
+            return [str(rng.randrange(n)) for _ in range(k)]
+        members = []
+        for _ in range(2):
+            a = subset(); prog += ["L", rng.choice(["N", "N", "N", "N", "N", "N", "T", "F", "1", "0"]), str(len(a))] + a; members.append(set(a))
+        if rng.random() < 0.85: prog += ["&", "0", "1"]; members.append(members[0] | members[1])
+        def pre_cand():
+            c = G.candidate(rng, pool, 1.0)
+            return c if rng.random() < 0.3 else gen.vstr(replace(rng.choice(pool), pre=rng.choice([("a", 1), ("rc", 0)]), dev=None, local=None))
+        for _ in range(rng.choice([2, 4, 6, 9])):
+            k = rng.random(); nsets = len(members); si = str(rng.randrange(nsets)); ci = str(rng.randrange(n))
+            if k < 0.25:
+                held = sorted(set().union(*members))
+                if held and rng.random() < 0.8: ci = rng.choice(held)
+                prog += ["M", ci, rng.choice(["T", "F", "N", "T", "F", "N", "1", "0"])]
+                # look at the assignment through a set that holds this object (the intersection by preference)
+                holders = [j for j in range(nsets) if ci in members[j]]
+                if holders and rng.random() < 0.8:
+                    h = str(max(holders) if rng.random() < 0.6 else rng.choice(holders))
+                    prog += ["pre", h, "c", h, "N", rng.choice(["N", "N", "T"]), rng.choice("sv"), pre_cand()]
+                    if rng.random() < 0.3:
+                        its = item_list(rng, pool); prog += ["f", h, "N", str(len(its) // 2)] + its
+            elif k < 0.35: prog += ["P", si, rng.choice(["T", "F", "N", "N", "1", "0"])]
+            elif k < 0.55: prog += ["c", si, rng.choice(G.TRI_ARG), rng.choice(["N", "N", "T", "F"]), rng.choice("sv"), G.candidate(rng, pool, 0.97)]
+            elif k < 0.6: prog += ["in", si, rng.choice("sv"), G.candidate(rng, pool, 0.97)]
+            elif k < 0.75: prog += ["pre", si]
+            elif k < 0.8: prog += ["str", si]
+            elif k < 0.85: prog += ["xpre", ci]
+            elif k < 0.9: prog += ["xc", ci, rng.choice(G.TRI_ARG), rng.choice("sv"), G.candidate(rng, pool, 0.97)]
+            elif k < 0.93 and nsets < 5:
+                sj = rng.randrange(nsets); prog += ["&", si, str(sj)]; members.append(members[int(si)] | members[sj])
+            else:
+                its = item_list(rng, pool)
+                prog += (["f", si] if rng.random() < 0.8 else ["xf", ci]) + [rng.choice(G.TRI_ARG), str(len(its) // 2)] + its
+        out.append(Case("history:world", "s.world", prog))
     for text, its in [(">=1.0", ["1.5a1"]), (">=1.0", ["1.0", "1.5a1"]), (">=1.0a1", ["1.5a1", "2.0"]), ("", ["1.0a1"]), ("", ["1.0a1", "1.0"]),
                       ("!=1.0a1", ["1.0a1", "2.0a1"]), ("===foo", ["1.0", "foo"]), ("==1.0.*", ["1.0.dev1", "1.0.1"]), ("<2", ["2.0.dev1", "1.0"])]:
         for o in "NTF":
@@ -96,11 +150,16 @@ def streams(rng, tier):
                     out.append(Case("fixed", "s.run", [kind, o, text, "pre", "f", a, str(len(its))] + pr + ["c", a, "N", "s", its[0], "P", "F", "f", a, str(len(its))] + pr))
     for _ in range(900 if q else 25000):
         pool = G.pool_of(rng)
-        kind = rng.choice(["X", "S", "S"])
+        kind = rng.choice(["X", "S", "S", "L", "L"])
         if kind == "X": text = G.clause(rng, pool)
-        else: text = G.layout(rng, [G.clause(rng, pool) for _ in range(rng.choice([0, 0, 1, 1, 2, 3]))])
+        elif kind == "S": text = G.layout(rng, [G.clause(rng, pool) for _ in range(rng.choice([0, 0, 1, 1, 2, 3]))])
+        else:
+            # a set built from Specifier objects with their own overrides: the text field is a JSON list of [override, clause]
+            cl = [G.clause(rng, pool) for _ in range(rng.choice([0, 1, 1, 2, 3]))]
+            if cl and rng.random() < 0.3: cl.append(G.respell(rng, rng.choice(cl)))
+            text = json.dumps([[rng.choice(G.TRI_OV), x] for x in cl])
         its = item_list(rng, pool, valid=1.0)
-        out.append(Case("law", "law.s.c06", [kind, rng.choice(G.TRI), rng.choice(["keep", "keep", "N", "T", "F"]), text] + its, kind="law"))
+        out.append(Case("law", "law.s.c06", [kind, rng.choice(G.TRI_OV), rng.choice(["keep", "keep", "N", "T", "F", "1", "0"]), text] + its, kind="law"))
     return out
 
 
